@@ -81,6 +81,7 @@ type Cfg struct {
 	LongSizes  []int // candidate sizes for long strings/idents when LongTail
 	NoNL       bool  // string literals never denote a line break (line-oriented output oracles)
 	SmallInts  bool  // integer literals stay below 2^16 (so that no product with a string can be huge)
+	OneLine    bool  // no line feed anywhere in the source (blanks and ';' only): an empty line table
 }
 
 func DefaultCfg(r *prng.R) Cfg {
@@ -91,6 +92,7 @@ func DefaultCfg(r *prng.R) Cfg {
 		Exotic:    []int{0, 0, 5, 20, 60}[r.Intn(5)],
 		Tight:     []int{0, 10, 50}[r.Intn(3)],
 	}
+	c.OneLine = r.Chance(1, 25)
 	return c
 }
 
@@ -216,7 +218,7 @@ func (g *g) floatLit() string {
 }
 
 var strPieces = []string{"a", "b", "prod", "acme.com", " ", "x y", "#nocomment", ";", "(", ")", "{}", "=", "é", "→", "日本", " ", "\u0085",
-	`\n`, `\t`, `\\`, `\"`, `\x41`, `é`, `\101`, `\r`, `\a`, `\U0001F600`, "\U0001F600", "\U00010348x", "-", "0", "42", "var", "def", "'", "/", "%d", "<=", "->"}
+	`\n`, `\t`, `\\`, `\"`, `\x41`, `é`, `\101`, `\r`, `\a`, `\xff`, `\xe2\x82`, `\xc0\x80`, `\x00`, `\U0001F600`, "\U0001F600", "\U00010348x", "-", "0", "42", "var", "def", "'", "/", "%d", "<=", "->"}
 
 func (g *g) strLit() string {
 	if g.r.Chance(1, 12) && len(g.toks) > 0 {
@@ -808,6 +810,12 @@ var exoticSepsASCII = []string{"\r\n", "\r", "\v", "\f", "\t\t", "\n\r\n", " \r\
 var commentBodies = []string{"", " comment", " \U0001F600 four-byte \U0001F680", "\U0001F600", " a \"quoted\" thing", " var def print }", " é→日本", "#", " x = 1 ; y", "\t", "  \u0085", " trailing  ", " ' ` \\ "}
 
 func (p *Prog) sep(r *prng.R, cfg Cfg, must bool, afterStmt bool) string {
+	if cfg.OneLine {
+		if !must && r.Chance(cfg.Tight, 100) {
+			return ""
+		}
+		return prng.Pick(r, []string{" ", " ", "  ", "\t", "\v", "\f", "\r"})
+	}
 	if !must && r.Chance(cfg.Tight, 100) {
 		return ""
 	}
@@ -835,7 +843,7 @@ func (p *Prog) sep(r *prng.R, cfg Cfg, must bool, afterStmt bool) string {
 // Layout picks separators and renders Src, recording token offsets.
 func (p *Prog) Layout(r *prng.R, cfg Cfg) {
 	p.Seps = make([]string, len(p.Toks)+1)
-	if cfg.Pad > 0 {
+	if cfg.Pad > 0 && !cfg.OneLine {
 		p.Seps[0] = MakePad(r, cfg.Pad)
 	} else if r.Chance(1, 5) {
 		p.Seps[0] = p.sep(r, cfg, false, false)
@@ -845,7 +853,9 @@ func (p *Prog) Layout(r *prng.R, cfg Cfg) {
 		after := p.Toks[i].Stmt != p.Toks[i-1].Stmt
 		p.Seps[i] = p.sep(r, cfg, must, after)
 	}
-	if len(p.Toks) > 0 {
+	if len(p.Toks) > 0 && cfg.OneLine {
+		p.Seps[len(p.Toks)] = prng.Pick(r, []string{"", " "})
+	} else if len(p.Toks) > 0 {
 		switch r.Intn(4) {
 		case 0:
 			p.Seps[len(p.Toks)] = ""
